@@ -29,6 +29,7 @@ const extraPrelude = `
 (declare-fun str_of_bytes ((Array Int Int) Int Int) Str)
 (assert (forall ((a (Array Int Int)) (o Int) (n Int)) (! (=> (<= 0 n) (= (slen (str_of_bytes a o n)) n)) :pattern ((str_of_bytes a o n)))))
 (assert (forall ((a (Array Int Int)) (o Int) (n Int) (k Int)) (! (=> (and (<= 0 k) (< k n) (<= 0 (select a (eidx o k))) (<= (select a (eidx o k)) 255)) (= (sat (str_of_bytes a o n) k) (select a (eidx o k)))) :pattern ((sat (str_of_bytes a o n) k)))))
+(assert (forall ((a (Array Int Int)) (o Int) (n Int) (j Int) (m Int)) (! (=> (and (<= 0 j) (<= j m) (<= m n)) (= (ssub (str_of_bytes a o n) j m) (str_of_bytes a (+ o j) (- m j)))) :pattern ((ssub (str_of_bytes a o n) j m)))))
 (declare-fun bytes_of_str (Str) (Array Int Int))
 (assert (forall ((s Str) (k Int)) (! (=> (and (<= 0 k) (< k (slen s))) (= (select (bytes_of_str s) k) (sat s k))) :pattern ((select (bytes_of_str s) k)))))
 (declare-fun runeat (Str Int) Int)
@@ -174,26 +175,25 @@ func (P *Prog) assemble(decls []string, lemmaAx []string, body string, excludeAx
 
 type solverSpec struct {
 	name string
-	args func(file string, timeoutS int) []string
+	args func(file string, timeoutS int, seed int) []string
 }
 
-var solverSeed = 0
 var noRetry = false
 
 var solvers = []solverSpec{
-	{"z3", func(f string, t int) []string {
-		return []string{"z3", fmt.Sprintf("-T:%d", t), fmt.Sprintf("smt.random_seed=%d", solverSeed), f}
+	{"z3", func(f string, t int, seed int) []string {
+		return []string{"z3", fmt.Sprintf("-T:%d", t), fmt.Sprintf("smt.random_seed=%d", seed), f}
 	}},
-	{"z3-new", func(f string, t int) []string {
-		return []string{"z3-new", fmt.Sprintf("-T:%d", t), fmt.Sprintf("smt.random_seed=%d", solverSeed), f}
+	{"z3-new", func(f string, t int, seed int) []string {
+		return []string{"z3-new", fmt.Sprintf("-T:%d", t), fmt.Sprintf("smt.random_seed=%d", seed), f}
 	}},
-	{"cvc5", func(f string, t int) []string {
-		return []string{"cvc5", fmt.Sprintf("--tlimit=%d", t*1000), fmt.Sprintf("--seed=%d", solverSeed), "--full-saturate-quant", f}
+	{"cvc5", func(f string, t int, seed int) []string {
+		return []string{"cvc5", fmt.Sprintf("--tlimit=%d", t*1000), fmt.Sprintf("--seed=%d", seed), "--full-saturate-quant", f}
 	}},
 }
 
-func runSolver(ctx context.Context, s solverSpec, file string, timeoutS int) (string, string) {
-	a := s.args(file, timeoutS)
+func runSolver(ctx context.Context, s solverSpec, file string, timeoutS int, seed int) (string, string) {
+	a := s.args(file, timeoutS, seed)
 	cctx, cancel := context.WithTimeout(ctx, time.Duration(timeoutS+2)*time.Second)
 	defer cancel()
 	cmd := exec.CommandContext(cctx, a[0], a[1:]...)
@@ -232,6 +232,10 @@ var vcFileSeq int64
 
 // discharge runs one VC: quick pass on z3, then race the others.
 func discharge(vc *VC, dir string, timeoutS int, model bool) {
+	dischargeSeed(vc, dir, timeoutS, model, 0)
+}
+
+func dischargeSeed(vc *VC, dir string, timeoutS int, model bool, seed int) {
 	file := filepath.Join(dir, fmt.Sprintf("%s.%d.smt2", sanitize(vc.Name), atomic.AddInt64(&vcFileSeq, 1)))
 	text := vc.Text
 	if model {
@@ -256,7 +260,7 @@ func discharge(vc *VC, dir string, timeoutS int, model bool) {
 	for _, s := range solvers {
 		s := s
 		go func() {
-			r, o := runSolver(ctx, s, file, timeoutS)
+			r, o := runSolver(ctx, s, file, timeoutS, seed)
 			ch <- res{s.name, r, o}
 		}()
 	}
@@ -315,31 +319,48 @@ func dischargeAll(vcs []*VC, dir string, timeoutS int, workers int) {
 	}
 	close(ch)
 	wg.Wait()
-	// Second chance, one at a time and with other seeds, for obligations that were not discharged:
-	// a proof found under any seed is a proof; this only removes alarms caused by solver scheduling.
-	retried := 0
+	// Second chance with other solver seeds for obligations that were not discharged: a proof found under any
+	// seed is a proof; this only removes alarms caused by E-matching order and solver scheduling.  The retries run
+	// in parallel (each obligation keeps its own seed sequence); at most retryCap obligations are retried so that
+	// a tree on which many obligations genuinely fail is still reported quickly.
+	if noRetry {
+		return
+	}
+	const retryCap = 24
+	var todo []*VC
 	for _, vc := range vcs {
 		if vc.Cover || vc.Known != "" || vc.Result == "unsat" || vc.Result == "vacuous" {
 			continue
 		}
-		if noRetry || retried >= 4 {
-			break
+		if len(todo) < retryCap {
+			todo = append(todo, vc)
 		}
-		retried++
-		first := vc.Result
-		for seed := 1; seed <= 2 && vc.Result != "unsat"; seed++ {
-			solverSeed = seed
-			keepModel := vc.ModelOut
-			discharge(vc, dir, timeoutS, true)
-			if vc.ModelOut == "" {
-				vc.ModelOut = keepModel
-			}
-			if vc.Result == "unsat" {
-				vc.Backend += fmt.Sprintf(" (retry seed %d after %s)", seed, first)
-			}
-		}
-		solverSeed = 0
 	}
+	if len(todo) == 0 {
+		return
+	}
+	var wg2 sync.WaitGroup
+	sem := make(chan struct{}, 5)
+	for _, vc := range todo {
+		wg2.Add(1)
+		go func(vc *VC) {
+			defer wg2.Done()
+			sem <- struct{}{}
+			defer func() { <-sem }()
+			first := vc.Result
+			for seed := 1; seed <= 2 && vc.Result != "unsat"; seed++ {
+				keepModel := vc.ModelOut
+				dischargeSeed(vc, dir, timeoutS, true, seed)
+				if vc.ModelOut == "" {
+					vc.ModelOut = keepModel
+				}
+				if vc.Result == "unsat" {
+					vc.Backend += fmt.Sprintf(" (retry seed %d after %s)", seed, first)
+				}
+			}
+		}(vc)
+	}
+	wg2.Wait()
 }
 
 // cover: the assumptions must NOT be refutable within a small budget.
@@ -347,11 +368,11 @@ func dischargeCover(vc *VC, dir string) {
 	file := filepath.Join(dir, fmt.Sprintf("%s.%d.smt2", sanitize(vc.Name), atomic.AddInt64(&vcFileSeq, 1)))
 	_ = os.WriteFile(file, []byte(vc.Text), 0o644)
 	start := time.Now()
-	r, o := runSolver(context.Background(), solvers[0], file, 2)
+	r, o := runSolver(context.Background(), solvers[0], file, 2, 0)
 	vc.Backend = "z3"
 	if r != "unsat" && strings.HasPrefix(vc.Name, "cover.exit:") && len(solvers) > 1 {
 		// the exit cover carries the whole body: give a second solver a chance to find a contradiction
-		r, o = runSolver(context.Background(), solvers[1], file, 2)
+		r, o = runSolver(context.Background(), solvers[1], file, 2, 0)
 		vc.Backend = solvers[1].name
 	}
 	vc.Ms = time.Since(start).Milliseconds()
